@@ -79,6 +79,8 @@ func Load(dir string) (*Prog, error) {
 	}
 	sort.Slice(p.Mod, func(i, j int) bool { return p.Mod[i].Pkg.Path() < p.Mod[j].Pkg.Path() })
 	p.LoadSecs = time.Since(t0).Seconds()
+	theProg = p
+	siteIndex = nil
 	return p, nil
 }
 
